@@ -50,6 +50,8 @@ def main():
                 op = o["op"]
                 if op == "save_state":
                     r = c.get("/save-state")
+                elif op == "load_state":
+                    r = c.post("/load-state")
                 elif op == "create":
                     r = c.post("/start-instance", json={"timeout": {"hours": 12}})
                     try:
